@@ -52,7 +52,7 @@ def _mentions(D, p):
 def conv(facts, fn, p, depth=0):
     """-> (set of (dest, src) copies fed by parameter p, decided?)"""
     b = Body(fn)
-    d = descr.Describer(facts, b, FnEval(facts, b))
+    d = descr.Describer(facts, b)
     out = set()
     ok = True
     for bi in b.reach:
